@@ -36,8 +36,10 @@ m = dict(
     hooks=dict(
         guard="TLX_VERIF",
         enable="every harness is compiled by ./check straight from /repo's working tree with "
-               "-DTLX_VERIF=1 (no assert-disabling -DNDEBUG); see MANIFEST.hooks.source_commits "
-               "for the guarded hook commits",
+               "-DTLX_VERIF=1 (the plain/asan/tsan/asan17 builds keep tlx's asserts as monitors, the ndebug "
+               "build compiles them out as the stock tests do). No hook had to be added to tlx: "
+               "MANIFEST.hooks.source_commits is empty, the guard is unused, and ./baseline_off.sh runs the "
+               "repository's own suite on the tree with all fix commits",
         baseline_off_cmd=T.BASELINE_OFF,
         source_commits=T.HOOK_COMMITS,
         add_only=True),
